@@ -15,7 +15,8 @@ import (
 // orderExplains reports whether a divergence of this kind can be the effect of nothing but a
 // different order in which independent parameters were built.
 func orderExplains(kind string) bool {
-	for _, p := range []string{"exec.", "root", "verdict.invoke", "args.", "snap.called", "snap.dcalled", "snap.vals", "snap.dvals", "snap.grps", "snap.dgrps", "cb.", "mk", "nest."} {
+	for _, p := range []string{"exec.", "root", "verdict.invoke", "args.", "snap.called", "snap.dcalled", "snap.vals", "snap.dvals", "snap.grps", "snap.dgrps", "cb.", "mk", "nest.",
+		"viz.root", "viz.trans", "viz.ctors", "viz.pruned", "viz.can"} {
 		if kind == p || strings.HasPrefix(kind, p) {
 			return true
 		}
@@ -28,9 +29,11 @@ func orderExplains(kind string) bool {
 // when independent parameters may be built in any order (dig documents the order of
 // instantiation as unspecified): the observed execution is validated as a trace by TLC against
 // DigTrace with FreeOrder = TRUE, where every step may pick any parameter the properties allow
-// and the recording prunes the search. Only if no branch explains the recording is the
-// divergence a finding. It never runs while model and code agree.
-func vetFreeOrder(c *cat.Catalog, opt cat.Opts, ops []*run.Entry) (bool, error) {
+// and the recording prunes the search. If some branch explains the whole recording, the
+// specification's predictions along that branch (state, pictures, ...) are compared with the
+// observations once more, and only if nothing the property claims differs is the execution
+// accepted. It never runs while model and code agree.
+func vetFreeOrder(def *propDef, c *cat.Catalog, opt cat.Opts, ops []*run.Entry) (bool, error) {
 	if len(ops) == 0 {
 		return false, nil
 	}
@@ -50,18 +53,26 @@ func vetFreeOrder(c *cat.Catalog, opt cat.Opts, ops []*run.Entry) (bool, error) 
 	if _, err := writeCats(dir, []*cat.Catalog{cc}); err != nil {
 		return false, err
 	}
-	mod, _, _ := run.TraceModule(recs)
+	mod, lines, _ := run.TraceModule(recs)
 	os.WriteFile(filepath.Join(dir, "DigTraceData.tla"), []byte(mod), 0o644)
 	os.WriteFile(filepath.Join(dir, "MCVet.tla"), []byte("---- MODULE MCVet ----\nEXTENDS DigTrace\n====\n"), 0o644)
 	cfg := "SPECIFICATION TraceSpec\nCONSTANTS\n  MaxInv = 1000000\n  MaxFaults = 1000000\n  FaultKinds = {\"err\", \"panic\"}\n  FreeOrder = TRUE\nCHECK_DEADLOCK FALSE\n"
 	os.WriteFile(filepath.Join(dir, "MCVet.cfg"), []byte(cfg), 0o644)
 	accepted := false
+	preds := map[int]*tracePrediction{}
 	st, terr := runTLC(dir, "MCVet", 1, 5*time.Minute, nil, func(s string) {
 		var m map[string]interface{}
 		if json.Unmarshal([]byte(s), &m) == nil {
 			if a, ok := m["accepted"].(bool); ok && a {
 				accepted = true
+				return
 			}
+		}
+		var p tracePrediction
+		if json.Unmarshal([]byte(s), &p) == nil && p.L > 0 && p.Strict.V && p.Strict.Root && p.Strict.MK && p.Strict.Log {
+			// a completed call that agrees with the recording: with the same executions in the
+			// same order every branch reaches the same state
+			preds[p.L] = &p
 		}
 	})
 	if terr != nil {
@@ -70,5 +81,30 @@ func vetFreeOrder(c *cat.Catalog, opt cat.Opts, ops []*run.Entry) (bool, error) 
 	if len(st.Errors) > 0 {
 		return false, fmt.Errorf("TLC: %s", firstLines(strings.Join(st.Errors, "\n"), 6))
 	}
-	return accepted, nil
+	if !accepted {
+		return false, nil
+	}
+	// compare every observation with the predictions of the explaining order
+	op := 0
+	for l := 1; l < len(lines); l++ {
+		obs := lines[l]
+		if obs == nil {
+			continue
+		}
+		p := preds[l]
+		if p == nil {
+			return false, nil
+		}
+		want := *p.Entry
+		want.Snap = p.Snap
+		want.Viz = p.Viz
+		want.VizErp = p.VizErr
+		for _, d := range run.CompareEntry(cc, opt.Dry, op, &want, obs) {
+			if d.Kind != "exec.order" && (def == nil || def.claims(d.Kind, d.Detail)) {
+				return false, nil
+			}
+		}
+		op++
+	}
+	return true, nil
 }
